@@ -96,8 +96,11 @@ func c17Passwords(rng *rand.Rand, n int) []string {
 		pws = append(pws, string(ref.Password(rng)))
 	}
 	var out []string
+	// long but trivially weak / strong passwords (129-200 bytes; zxcvbn needs < 0.1 s for these)
+	long := []string{strings.Repeat("a", 129), strings.Repeat("password", 20), strings.Repeat("a", 200), strings.Repeat("x9$Lq!2vZr#8mW@4", 9)}
+	out = append(out, long[rng.Intn(2)], long[2+rng.Intn(2)])
 	for _, p := range pws {
-		// zxcvbn's matching is super-linear in the password length: keep the corpus at realistic lengths
+		// zxcvbn's matching is super-linear in the password length: keep the rest of the corpus at realistic lengths
 		if len(p) > 48 {
 			p = p[:48]
 		}
@@ -109,7 +112,7 @@ func c17Passwords(rng *rand.Rand, n int) []string {
 }
 
 func TestVerifC17(t *testing.T) {
-	R := vr.New("C17", "policy", "for every condition kind (score/entropy/time) x thresholds and a password corpus (common, dates, keyboard walks, user-name derived, random, Unicode) x user names, every write path of the agent - interface init/add/update, HTTP add by admin, HTTP update by admin session / own session / old password, the command line init/add/update of the built binary, and the login-triggered upgrade - is exercised with a policy configured; a request is refused exactly when the reference verdict (zxcvbn called directly) is 'fails', refused requests leave the directory byte-identical; about 90 malformed / borderline condition strings and unknown types must make the constructor (and the binary) fail, or - for borderline number syntaxes - be enforced with the value written. Non-trivial: every (write path, condition, password, user) tuple; distinct by that tuple")
+	R := vr.New("C17", "policy", "for every condition kind (score/entropy/time) x thresholds and a password corpus (common, dates, keyboard walks, user-name derived, random, Unicode, 129-200 byte repetitions) x user names, every write path of the agent - interface init/add/update, HTTP add by admin, HTTP update by admin session / own session / old password, the command line init/add/update of the built binary, and the login-triggered upgrade - is exercised with a policy configured; a request is refused exactly when the reference verdict (zxcvbn called directly) is 'fails', refused requests leave the directory byte-identical; about 90 malformed / borderline condition strings and unknown types must make the constructor (and the binary) fail, or - for borderline number syntaxes - be enforced with the value written. Non-trivial: every (write path, condition, password, user) tuple; distinct by that tuple")
 	defer R.Write()
 	rng := R.Rand("c17")
 	conds := c17Conditions()
